@@ -1,7 +1,7 @@
 pub mod cache;
 
 use std::collections::btree_map;
-use std::collections::{BTreeMap, BTreeSet, HashMap};
+use std::collections::{BTreeMap, BTreeSet};
 use std::fmt;
 use std::ops::Deref;
 use std::str::FromStr;
@@ -1076,7 +1076,7 @@ impl Patch {
                 );
 
                 let mut merges = self.merges.iter().fold(
-                    HashMap::<(RevisionId, git::Oid), usize>::new(),
+                    BTreeMap::<(RevisionId, git::Oid), usize>::new(),
                     |mut acc, (_, merge)| {
                         *acc.entry((merge.revision, merge.commit)).or_default() += 1;
                         acc
